@@ -561,7 +561,11 @@ func c10wantSection(secs []nfp.Section, cls string) (idx int, applicable bool) {
 // ---------------------------------------------------------------------------
 // one fmt case with every oracle
 
+// c10lastLine: transcript line of the most recent c10fmt call (0 = kept out of the transcript)
+var c10lastLine int
+
 func c10fmt(r *Run, c c10case) (string, bool) {
+	c10lastLine = 0
 	b := c10build(c)
 	rep := c.replay()
 	ct := xl.CellTypeSharedString
@@ -601,6 +605,7 @@ func c10fmt(r *Run, c c10case) (string, bool) {
 			xs = "X=" + hx(c10exactFixed(x, cf.Percent, cf.FracLen))
 		}
 		line = r.Op(b.op, out+" "+c10confStr(cf, numeric)+" "+xs)
+		c10lastLine = line
 		r.Stat("transcript:fmt")
 	} else {
 		r.Stat("skip-transcript:" + b.why)
@@ -1303,10 +1308,15 @@ func runC10(r *Run, rng *Rng, replay string) {
 		}
 		c := c10case{cellNumeric: !rng.Chance(6), d1904: rng.Chance(25), value: c10randValue(rng), code: code}
 		c10fmt(r, c)
+		if strings.Contains(code, ";") && len(code) < 120 && len(c10histPool) < 60*scale {
+			c10histPool = append(c10histPool, code)
+		}
 		if i%9 == 0 {
 			c10api(r, c.d1904, c.value, c.code)
 		}
 	}
+	// 3b. order independence: every class under multi-section codes, both orders, vs fresh workers
+	c10orderIndependence(r, rng, 60*scale)
 	// 4. accuracy focus: plain numeric codes with 0..30 decimals over tie-heavy values
 	for i := 0; i < 1200*scale; i++ {
 		d := rng.Range(0, 30)
@@ -1427,6 +1437,211 @@ func c10replay(r *Run, path string) {
 			c10lang(r, unhx(w[1]))
 		case w[0] == "builtin" && len(w) == 4:
 			c10builtin(r, atoi(w[1]), unhx(w[2]), atoi(w[3]))
+		case w[0] == "solo" && len(w) == 3:
+			// fresh-worker side of the order-independence oracle: one bare call, result on the transcript
+			res := c10guard(func() string { return xl.VerifC10Format(unhx(w[1]), unhx(w[2]), false, xl.CellTypeNumber, nil) })
+			out := "PANIC"
+			if res.panic == "" && !res.hang {
+				out = "ok " + hx(res.s)
+			}
+			r.Op(line, out)
+		case w[0] == "hist" && len(w) >= 3:
+			var vs []string
+			for _, h := range w[2:] {
+				vs = append(vs, unhx(h))
+			}
+			c10histories(r, []c10hist{{unhx(w[1]), vs}})
 		}
 	}
+}
+
+// ---------------------------------------------------------------------------
+// order independence: rendering is a function of (value, code, options), not of call history
+
+type c10hist struct {
+	code string
+	vals []string
+}
+
+var c10histPool []string
+
+// layouts that differ in decimals, separators, percent, literals, scientific form
+var c10layouts = []string{"0", "0.0", "0.00", "0.000", "0.0000", "#,##0", "#,##0.00", "#,##0.0000", "0%", "0.0%", "0.00%", "0.00E+00", "0.0000E+00",
+	"\"x\"0.0", "(0.0)", "(#,##0.00)", "-0.0000", "#,##0.00_)", "00000", "00000.0", "[Red]0.000", "$#,##0", "0.0\" kg\""}
+
+func c10orderIndependence(r *Run, rng *Rng, n int) {
+	codes := []string{"#,##0.00;(0.0)", "0%;-0.0000", "0.0;-0.000", "0.000;-0", "#,##0;-0.00E+00;\"z\"0.0", "0.00;(#,##0.0000);0%;\"t:\"@"}
+	for i := 0; i < n; i++ {
+		k := rng.Pick2([]int{2, 2, 2, 3, 3, 4})
+		var ss []string
+		for j := 0; j < k; j++ {
+			if j == 3 {
+				ss = append(ss, rng.Pick([]string{"@", "\"t:\"@", "@\" x\""}))
+				continue
+			}
+			l := rng.Pick(c10layouts)
+			for len(ss) > 0 && l == ss[len(ss)-1] {
+				l = rng.Pick(c10layouts)
+			}
+			ss = append(ss, l)
+		}
+		codes = append(codes, strings.Join(ss, ";"))
+	}
+	codes = append(codes, c10histPool...)
+	seen := map[string]bool{}
+	var hs []c10hist
+	for i, code := range codes {
+		if seen[code] {
+			continue
+		}
+		seen[code] = true
+		mag := rng.Pick([]string{"1234.5678", "0.256", "2.71828", "123456.789", "0.5", "99.995"})
+		pos, neg := mag, "-"+mag
+		vals := []string{pos, neg, "0", "abc", pos}
+		if i%2 == 1 {
+			vals = []string{neg, pos, "abc", "0", neg}
+		}
+		hs = append(hs, c10hist{code, vals})
+	}
+	c10histories(r, hs)
+}
+
+// c10solo formats pairs in fresh worker processes: worker j gets the j-th pair of every history, so no
+// worker sees a code twice. Returns results[j][i] (history i, position j), "" when the worker failed.
+func c10solo(r *Run, hs []c10hist) [][]string {
+	maxLen := 0
+	for _, h := range hs {
+		if len(h.vals) > maxLen {
+			maxLen = len(h.vals)
+		}
+	}
+	out := make([][]string, maxLen)
+	for j := 0; j < maxLen; j++ {
+		out[j] = make([]string, len(hs))
+		var sb strings.Builder
+		var idx []int
+		for i, h := range hs {
+			if j < len(h.vals) && !(j > 0 && c10indexOf(h.vals[:j], h.vals[j]) >= 0) {
+				fmt.Fprintf(&sb, "solo %s %s\n", hx(h.vals[j]), hx(h.code))
+				idx = append(idx, i)
+			}
+		}
+		if len(idx) == 0 {
+			continue
+		}
+		dir, _ := os.MkdirTemp("", "c10solo")
+		rp := filepath.Join(dir, "r.txt")
+		_ = os.WriteFile(rp, []byte(sb.String()), 0o644)
+		cmd := exec.Command(os.Args[0], "C10", "-out", filepath.Join(dir, "o"), "-replay", rp)
+		if b, err := cmd.CombinedOutput(); err != nil {
+			r.Fail("history:worker-crash", fmt.Sprintf("fresh worker %d failed: %v %s", j, err, string(b)), 0, "# worker")
+			os.RemoveAll(dir)
+			continue
+		}
+		lines := readLines(filepath.Join(dir, "o", "go.out"))
+		for k, i := range idx {
+			if k < len(lines) {
+				out[j][i] = lines[k]
+			}
+		}
+		os.RemoveAll(dir)
+		r.Stat("history:workers")
+	}
+	// a value repeated later in a history has the solo result of its first occurrence
+	for i, h := range hs {
+		for j := range h.vals {
+			if f := c10indexOf(h.vals[:j], h.vals[j]); f >= 0 {
+				out[j][i] = out[f][i]
+			}
+		}
+	}
+	return out
+}
+
+func c10indexOf(xs []string, x string) int {
+	for i, y := range xs {
+		if y == x {
+			return i
+		}
+	}
+	return -1
+}
+
+func c10histories(r *Run, hs []c10hist) {
+	solo := c10solo(r, hs)
+	for i, h := range hs {
+		var hexes []string
+		for _, v := range h.vals {
+			hexes = append(hexes, hx(v))
+		}
+		rep := "hist " + hx(h.code) + " " + strings.Join(hexes, " ")
+		r.Case(rep, true)
+		r.Stat("history")
+		// (a) through the hook, one call after the other in this process (each call is also a transcript line)
+		for j, v := range h.vals {
+			got, ok := c10fmt(r, c10case{true, false, v, h.code})
+			line := c10lastLine
+			want := solo[j][i]
+			if !ok || want == "" {
+				continue
+			}
+			if "ok "+hx(got) != want {
+				r.Fail("history:order-dependent", fmt.Sprintf("format(%q, %q) = %q as call %d of the history %q in one process, but %s alone in a fresh process: rendering depends on call history",
+					v, h.code, got, j+1, h.vals[:j+1], c10showSolo(want)), line, rep)
+				break
+			}
+		}
+		// (b) through the public API on one File, one style, cells read in the same order
+		res := c10guard(func() string {
+			f := xl.NewFile()
+			defer f.Close()
+			code := h.code
+			st, err := f.NewStyle(&xl.Style{CustomNumFmt: &code})
+			if err != nil {
+				return "STYLE-ERR"
+			}
+			var outs []string
+			for j, v := range h.vals {
+				cell := fmt.Sprintf("A%d", j+1)
+				_ = f.SetCellDefault("Sheet1", cell, v)
+				_ = f.SetCellStyle("Sheet1", cell, cell, st)
+			}
+			for j := range h.vals {
+				got, err := f.GetCellValue("Sheet1", fmt.Sprintf("A%d", j+1))
+				if err != nil {
+					got = "ERR"
+				}
+				outs = append(outs, hx(got))
+			}
+			return strings.Join(outs, " ")
+		})
+		if res.panic != "" || res.hang {
+			r.Fail("history:api-panic", fmt.Sprintf("reading %q under %q on one File panics/hangs: %s", h.vals, h.code, res.panic), 0, rep)
+			continue
+		}
+		if res.s == "STYLE-ERR" {
+			continue
+		}
+		for j, g := range strings.Fields(res.s) {
+			want := solo[j][i]
+			v := h.vals[j]
+			// the cell reader normalises numeric text before format sees it: compare only where that is the identity
+			if isNum, prec, dec := xl.VerifC10IsNumeric(v); isNum && (prec > 15 || strconv.FormatFloat(dec, 'f', -1, 64) != v) {
+				continue
+			}
+			if want != "" && "ok "+g != want {
+				r.Fail("history:order-dependent:api", fmt.Sprintf("GetCellValue of %q under %q = %q as read %d of %q on one File, but %s alone in a fresh process",
+					v, h.code, unhx(g), j+1, h.vals[:j+1], c10showSolo(want)), 0, rep)
+				break
+			}
+		}
+	}
+}
+
+func c10showSolo(s string) string {
+	w := strings.Fields(s)
+	if len(w) == 2 && w[0] == "ok" {
+		return fmt.Sprintf("%q", unhx(w[1]))
+	}
+	return s
 }
